@@ -895,5 +895,65 @@ theorem readGeom_of_b (E : Bytes → Bytes → Bytes) (s : State) (file : Bytes)
     · rw [hget secHeader (by decide)] at h3
       exact h3
 
+
+/-- the byte count `get_data(FullDecrypted, offset, size)` settles on: not past the declared content, not past the file -/
+def clampFull (r : Region) (file : Bytes) (start offset : Nat) (size : Int) : Int :=
+  let s1 : Int := if (offset : Int) + size > r.size then (r.size : Int) - offset else size
+  if (offset : Int) + s1 > (file.length : Int) - start then (file.length : Int) - start - offset else s1
+
+theorem clampFull_idem (r : Region) (file : Bytes) (start offset : Nat) (size : Int) :
+    clampFull r file start offset (clampFull r file start offset size) = clampFull r file start offset size := by
+  unfold clampFull
+  simp only
+  repeat' split
+  all_goals omega
+
+/-- a read is the same as the read of its clamped size -/
+theorem fullRead_clamp (E : Bytes → Bytes → Bytes) (s : State) (file : Bytes) (start : Nat) (r : Region)
+    (hr : s.region? secFull = some r) (offset : Nat) (size : Int) :
+    fullRead E s file start offset size = fullRead E s file start offset (clampFull r file start offset size) := by
+  have hidem := clampFull_idem r file start offset size
+  unfold fullRead
+  rw [hr]
+  simp only
+  unfold clampFull at hidem ⊢
+  simp only at hidem ⊢
+  rw [hidem]
+
+
+/-- **every read, clamped or not**: whatever offset and size are asked for (negative sizes, sizes past the declared content, past
+    the end of the file), the fully-decrypted view returns the slice of the one image for the clamped byte count — nothing when
+    that count is not positive -/
+theorem fullRead_any (E : Bytes → Bytes → Bytes) (s : State) (file : Bytes) (start : Nat) (src : Nat → Bytes) (N : Nat)
+    (g : ReadGeom E s file start src N) (r : Region) (hr : s.region? secFull = some r) (hN : r.size ≤ 0x200 * N)
+    (offset : Nat) (size : Int) :
+    fullRead E s file start offset size =
+      .ok (if clampFull r file start offset size ≤ 0 then []
+           else slice (fullImage s src N) offset (clampFull r file start offset size).toNat) := by
+  rw [fullRead_clamp E s file start r hr offset size]
+  have hidem := clampFull_idem r file start offset size
+  generalize hc : clampFull r file start offset size = c at hidem ⊢
+  have hb1 : c ≤ 0 ∨ ((offset : Int) + c ≤ r.size ∧ (offset : Int) + c ≤ (file.length : Int) - start) := by
+    rw [← hc]
+    unfold clampFull
+    simp only
+    repeat' split
+    all_goals omega
+  by_cases hle : c ≤ 0
+  · rw [if_pos hle]
+    unfold fullRead
+    rw [hr]
+    simp only
+    unfold clampFull at hidem
+    simp only at hidem
+    rw [hidem, if_pos hle]
+  · rw [if_neg hle]
+    rcases hb1 with h | ⟨h1, h2⟩
+    · exact absurd h hle
+    · have hn : c = ((c.toNat : Nat) : Int) := by omega
+      rw [hn]
+      rw [Int.toNat_natCast]
+      exact fullRead_spec E s file start src N g r hr offset c.toNat (by omega) (by omega) (by omega) (by omega)
+
 end Ncch
 end Pyctr
